@@ -748,6 +748,9 @@ func (t *Terms) stepCall(x ssa.CallInstruction, m *memState) {
 		// a pure function of a slice depends on the slice's elements: version the term by the
 		// element class when elements of that slice type were overwritten earlier on this path
 		for _, a := range x.Common().Args {
+			if n := calleeName(x); n == "builtin:len" || n == "builtin:cap" || n == "builtin:append" {
+				break // do not read element contents
+			}
 			if _, isSlice := a.Type().Underlying().(*types.Slice); isSlice {
 				if ver, ok := m.classV["elem:"+shortType(a.Type())]; ok && !strings.Contains(term, "@") {
 					term += "!e" + ver
